@@ -297,8 +297,10 @@ theorem lookAt_w (eye center up : Pt3 ℝ) :
   unfold Mt4.lookAtLh
   simp only []
   split
-  · split <;> simp [Mt4.rotXMatrix, Mt4.rotXCS, Mt4.identity, Mt4.transposed]
-  · simp
+  · simp [Mt4.identity]
+  · split
+    · split <;> simp [Mt4.rotXMatrix, Mt4.rotXCS, Mt4.identity, Mt4.transposed]
+    · simp
 
 /-- where a point of the un-placed edge cylinder ends up -/
 noncomputable def placed (start end_ : Pt3 ℝ) (p : Pt3 ℝ) : Pt3 ℝ :=
